@@ -28,7 +28,10 @@ Faults == {"none",
            "deep_array_nesting", "huge_symbol_table", "payload_garbage", "payload_empty",
            \* term values at the ends of their wire types: dates are 64-bit numbers of seconds
            "date_year_minus_1", "date_year_minus_9999", "date_below_year_minus_9999", "date_i64_min", "date_u64_max",
-           "date_year_10000", "date_i64_max", "int_i64_min_fact", "bytes_empty", "string_empty_symbol"}
+           "date_year_10000", "date_i64_max", "int_i64_min_fact", "bytes_empty", "string_empty_symbol",
+           \* the version of a saved WORLD (snapshot positions only), and saved counters at the ends of their types
+           "world_version_0", "world_version_2", "world_version_7", "world_version_absent", "world_iterations_max", "world_limits_zero",
+           "world_execution_time_max", "world_generated_unknown_origin"}
 
 \* ADVERSARIAL BUT WELL-FORMED contents: expressions whose operands are the extreme values of the term
 \* types.  They pass every validation stage; evaluating them must yield a value or an error ("run").
@@ -73,7 +76,10 @@ CaughtAt(f) ==
       [] f \in {"expr_empty", "expr_binary_underflow", "expr_leftover", "expr_closure_first", "closure_two_params", "expr_ffi_name_out_of_range"} -> "run"
       [] f \in {"check_no_queries", "huge_symbol_table", "payload_empty", "set_mixed_types", "version_absent",
                 "date_year_minus_1", "date_year_minus_9999", "date_below_year_minus_9999", "date_i64_min", "date_u64_max",
-                "date_year_10000", "date_i64_max", "int_i64_min_fact", "bytes_empty", "string_empty_symbol"} -> "never"   \* unspecified: served or refused, never a crash
+                "date_year_10000", "date_i64_max", "int_i64_min_fact", "bytes_empty", "string_empty_symbol",
+           \* the version of a saved WORLD (snapshot positions only), and saved counters at the ends of their types
+           "world_version_0", "world_version_2", "world_version_7", "world_version_absent", "world_iterations_max", "world_limits_zero",
+           "world_execution_time_max", "world_generated_unknown_origin"} -> "never"   \* unspecified: served or refused, never a crash
       [] OTHER -> "load"
 
 \* where the adversarial block sits: in a signed token, or inside an authorizer SNAPSHOT (a token block
